@@ -133,6 +133,22 @@ func c16History(p vbase.Params, r *vbase.Result) {
 			return inst{vs, car, rep}
 		}
 		a, b := mk(w.M(1)), mk(w.M(hotstuff.ID(n)))
+		if rng.Bool() {
+			// production wiring order: the rotation is constructed BEFORE the replicas are added to the configuration
+			m := w.M(hotstuff.ID(n))
+			late := core.NewRuntimeConfig(m.ID, w.Keys[m.ID], core.WithSharedRandomSeed(seed))
+			vs, err := protocol.NewViewStates(m.Chain, m.Auth)
+			if err != nil {
+				panic(err)
+			}
+			car, _ := leaderrotation.New(m.Logger, late, m.Chain, vs, leaderrotation.NameCarousel, chainLen)
+			rep, _ := leaderrotation.New(m.Logger, late, m.Chain, vs, leaderrotation.NameReputation, chainLen)
+			for _, o := range w.Members {
+				late.AddReplica(&hotstuff.ReplicaInfo{ID: o.ID, PubKey: w.Keys[o.ID].Public()})
+			}
+			b = inst{vs, car, rep}
+			r.Obs("instances_configured_after_construction", 1)
+		}
 		// chain
 		parent := hotstuff.GetGenesis()
 		parentQC := hotstuff.NewQuorumCert(nil, 0, parent.Hash())
